@@ -392,6 +392,9 @@ class Reader:
                 ins = ir.Load(address, name, ty, volatile=True)
             elif a == "undefined":
                 ins = ir.Undefined(name, ty)
+            elif a == "float":
+                # Non-finite float constant: float 'inf', float 'nan'
+                ins = ir.Const(float(self.consume("STRING")[1]), name, ty)
             elif self.at_keyword("rol") or self.at_keyword("ror"):
                 # Binop with an operator that is spelled as a word
                 op = self.parse_id()
